@@ -24,7 +24,16 @@ pub struct Violation {
 
 impl Violation {
     pub fn new(oracle: &str, what: impl Into<String>, case: Value) -> Self {
-        Violation { oracle: oracle.into(), sig: BTreeMap::new(), what: what.into(), case }
+        let mut what: String = what.into();
+        if what.len() > 600 {
+            let mut cut = 600;
+            while !what.is_char_boundary(cut) {
+                cut -= 1;
+            }
+            what.truncate(cut);
+            what.push_str("...");
+        }
+        Violation { oracle: oracle.into(), sig: BTreeMap::new(), what, case }
     }
     pub fn sig(mut self, k: &str, v: impl ToString) -> Self {
         self.sig.insert(k.into(), v.to_string());
